@@ -274,6 +274,9 @@ func init() {
 		Assumptions: []string{"reference value 0 and references below 0x10000000 interacting with local time are outside the alphabet (the property is silent)", "a compressed record with no preceding timestamp carries no timestamp demand"},
 		Run:         runC12,
 		Replay: func(raw json.RawMessage) (string, error) {
+			if s, ok, err := mixReplay(raw); ok {
+				return s, err
+			}
 			var r c12Replay
 			json.Unmarshal(raw, &r)
 			_, msg, known := c12Check(r.Ops, r.Big)
@@ -286,6 +289,11 @@ func init() {
 }
 
 func runC12(w *vx.W) {
+	mixLen := 3
+	if !w.Quick() {
+		mixLen = 4
+	}
+	mixFamily(w, mixLen)
 	T := uint32(c12T)
 	var alpha []c12Op
 	for _, v := range []uint32{T, T + 1, T + 31, T + 32, T | 31, 0xFFFFFFFE, 0xFFFFFFFF, 0x10000000} {
